@@ -157,8 +157,10 @@ func VerifUpdateResource(arg string) {
 		}
 	}
 	numa := []string{"", "0"}[vChoose("numa", 2)]
+	// a remapped parameter set: an UNBOUND workload whose shared cores are handed over as a cpu map
+	remap := vBool("remap")
 	params := resourcetypes.Resources{"cpumem": resourcetypes.RawParams{
-		"cpu": cpu, "cpu_map": cpuMap, "memory": memory, "numa_node": numa, "remap": false,
+		"cpu": cpu, "cpu_map": cpuMap, "memory": memory, "numa_node": numa, "remap": remap,
 	}}
 	err := e.VirtualizationUpdateResource(context.Background(), "id", params)
 	vAssert("C31/update-succeeds", err == nil)
@@ -174,6 +176,22 @@ func VerifUpdateResource(arg string) {
 		vAssert("C31/memory-capped-at-limit", vAnd(r.Memory == memory, r.MemorySwap == memory))
 	}
 	zeroQuota := vConcrete(vIte(m == 0, 1, 0)) == 1
+	if remap && !zeroQuota && len(cpuMap) > 0 {
+		// remapped: the workload keeps its own quota, default shares, and runs on the given cores
+		vCover("update-remapped", true)
+		q := float64(r.CPUQuota)
+		want := cpu * float64(corecluster.CPUPeriodBase)
+		vAssert("C31/update-remap-keeps-the-quota", vAnd(q <= want, want < q+1))
+		vAssert("C31/update-remap-shares-default", r.CPUShares == 1024)
+		got := map[string]bool{}
+		for _, id := range strings.Split(r.CpusetCpus, ",") {
+			got[id] = true
+		}
+		for i := 0; i < n; i++ {
+			vAssert("C31/update-remap-cpuset-is-the-given-cores", got[vCoreIDs[i]] == chosen[i])
+		}
+		return
+	}
 	if zeroQuota || len(cpuMap) == 0 {
 		// zero quota or no cpu map: not pinned, i.e. all cores
 		got := map[string]bool{}
